@@ -258,12 +258,12 @@ def cmdEntry (img : Image) (lower : Bool) (s : TState) : Entry → Option TState
     | none => none
     | some bs =>
       let addr := vecValue bs msb
-      let line := "indirect address @ " ++ hexString lower va 0 ++ " -> 0x" ++ hexString lower addr 0 ++ "\n"
+      let line := "indirect address @ " ++ hexString lower va 0 ++ " -> 0x" ++ hexString lower addr 0
       let syms := match name with
         | some n => (s.syms.add ("Vector_" ++ toString len ++ "_" ++ n) va).add n addr
         | none => s.syms
       some { s with
-        out := s.out ++ [line]
+        err := s.err ++ [line]     -- on stderr since the repair of das.c (it used to be printed into the generated source)
         data := addChunk s.data va len
         vectors := if len = 0 then s.vectors else (va, len) :: s.vectors
         syms := syms
@@ -331,7 +331,7 @@ def disasmLines (dis : Disasm) (img : Image) (lower : Bool) (maxSrc maxLab : Nat
     else o
 
 def disasmIterator (dis : Disasm) (img : Image) (lower : Bool) (maxSrc maxLab : Nat) (o : OState) (c : Chunk) (isData : Bool) : OState :=
-  let head := "\n" ++ prTabs maxLab 0 ++ "org\t$" ++ hexString lower c.start 0 ++ "\n"
+  let head := "\n" ++ prTabs maxLab 0 ++ "org\t" ++ toString c.start ++ "\n"
   disasmLines dis img lower maxSrc maxLab isData (c.start + c.len) (c.len + 1) c.start
     { o with out := o.out ++ [head], dataSize := -1 }
 
